@@ -7,6 +7,8 @@ SPEC = {
         {"name": "TestTiming", "quick": 48, "thorough": 480, "shards_quick": 2, "shards_thorough": 6, "timeout": 3000},
         # dense profiles: CPU-bound for a fraction of a second each, 6 at a time per process
         {"name": "TestNoEarlyShotDense", "quick": 24, "thorough": 240, "shards_quick": 2, "shards_thorough": 4, "timeout": 3000},
+        # sleep-bound (7-10 s per case): 32 cases per process concurrently; thorough = 320 per process
+        {"name": "TestDiscardedInPhout", "quick": 32, "thorough": 320, "shards_quick": 2, "shards_thorough": 4, "timeout": 3000},
     ],
     "rule": ("generated profiles (once/const/line, optionally two chained; 1-12 tokens per part over 1-4 s), 1-4 instances, shared or "
              "per-instance, discard_overflow on/off, cyclic response-time histories drawn from {0, 50ms, 0.5s, 1.7s, 1.9s, 2.1s, 2.4s, 3s, "
@@ -16,16 +18,30 @@ SPEC = {
              "report (joined by goroutine id). Non-trivial = at least one token handed out >= 1 s late; distinct = hash of the case. "
              "TestNoEarlyShotDense: const / line profiles of 700-6000 tokens per second for 60-250 ms, 1-3 instances, responses of 0-900 us, "
              "so that instances keep arriving at their next token a fraction of a millisecond early; same per-token comparison (B >= T "
-             "exactly); non-trivial = at least 10 shots entered within 1 ms after their token's time."),
+             "exactly); non-trivial = at least 10 shots entered within 1 ms after their token's time. "
+             "TestDiscardedInPhout: discarded tokens as the user reads them: real engine, the REAL phout aggregator writing a file (in-memory "
+             "fs; ids on/off, sample queue 8 / 1024 / default) and guns that report like the stock ones (netsample.Acquire at the start of a "
+             "request, SetProtoCode, Report; unique tag, id and a proto code per shot); const / line profiles (optionally two chained) of "
+             "8-80 tokens per second for 4.5-6.5 s, 1-3 instances, cyclic response histories 'one stall of 2.1-3 s, then 2-30 responses of "
+             "0-20 ms', so that every instance alternates discard bursts and bursts of ordinary shots (one case in six: discard_overflow off, "
+             "2 s profile); 32 cases concurrently per process, all sharing netsample's sample pool. Oracle over the file: tokens not fired "
+             "(tokens handed out minus Shoot calls) == lines having tag 'discarded' AND net code 777, no line has only one of the two, every "
+             "fired request has exactly one line with its own tag, id, net code 0 and proto code, no other lines; discard off: no token "
+             "unfired. Non-trivial = some instance discarded, fired, and discarded again (or, discard off, fired at all)."),
     "floors": {"TestTiming/late_1_2s": 0.1, "TestTiming/late_2_3s": 0.1, "TestTiming/late_ge_3s": 0.1,
                "TestTiming/discard_off": 0.1, "TestTiming/instances_gt_1": 0.3, "TestTiming/discards_seen": 0.2, "TestTiming/token_waited_for_right_after_a_discard": 0.08,
-               "TestNoEarlyShotDense/shots_within_1ms_after_their_time": 0.4},
+               "TestNoEarlyShotDense/shots_within_1ms_after_their_time": 0.4,
+               "TestDiscardedInPhout/phout_discard_then_shot_then_discard_on_one_instance": 0.5,
+               "TestDiscardedInPhout/phout_discarded_lines_seen": 0.6, "TestDiscardedInPhout/phout_discard_off": 0.05,
+               "TestDiscardedInPhout/phout_instances_gt_1": 0.3, "TestDiscardedInPhout/phout_ids_on": 0.25},
     "manifest": {
         "technique": "property-based testing (rapid generators, batch-parallel, real time) with an interval oracle over measured instants",
         "text": ("Real-time runs of the engine against slow fake guns. No shot may enter before its token's time; with discard_overflow on a "
                  "token handed over >= 2 s late (A-T) must be reported as discarded and one acted on < 2 s late (B-T) must be fired, "
                  "anything in between is accepted; with it off nothing is discarded and every token is fired; run length stays within "
-                 "profile + 2 s + slowest response (+3 s slack) when discard is on."),
+                 "profile + 2 s + slowest response (+3 s slack) when discard is on. A third test reads the discarded samples where the user does: "
+                 "in the file written by the real phout aggregator, with guns that take their samples from netsample's pool: one "
+                 "'discarded' / 777 line per token that was not fired, one faithful line per fired request."),
         "note": ("Cannot test the boundary at exactly 2.000 s: lateness between the two measured instants is accepted either way. Joins "
                  "token to shot by goroutine id parsed from runtime.Stack. Machine load delays A and B together and can only move a "
                  "sample into the accepted band."),
